@@ -7,7 +7,7 @@ dropping in getscript, D5 ACTIVE only after the name.
 import ast
 
 from sa import rx
-from sa.model import AnalysisError, walk_no_nested, norm, call_name, stmt_of
+from sa.model import AnalysisError, walk_no_nested, norm, call_name, stmt_of, mangle
 from sa.util import self_calls, const_value, bound_arg, contains, fact_atom, cmp_parts
 from sa.consteval import TOP
 from .roles import ClientRoles, regex_flags
@@ -79,46 +79,121 @@ def run(ctx):
     reader_rules(ctx, R)
 
 
-def decoder_rules(ctx, R, skip_d3=False):
-    lst = R.methods.get("listscripts")
-    get = R.methods.get("getscript")
-    if lst is None or get is None:
-        raise AnalysisError("D", "listscripts/getscript not found")
-    proto = {}
-    for a, (pat, flags, node) in R.regex_attrs.items():
-        if isinstance(pat, bytes):
-            if pat.startswith(rb"\{"):
-                proto[a] = "size"
-            elif b"OK" in pat:
-                proto[a] = "status"
-            elif b"ACTIVE" in pat.upper():
-                proto[a] = "active"
-    if "size" not in proto.values() or "status" not in proto.values():
-        raise AnalysisError("D1", "protocol recognisers not identified")
+LISTING_SAMPLES = [
+    b"",
+    b'"a"\r\n"b" ACTIVE\r\n"c"\r\n',
+    b'"only" ACTIVE\r\n',
+    b'"x" active\r\n"y"\r\n',
+    b'"a\\"b"\r\n"a\\\\b" ACTIVE\r\n',
+    b'"end\\\\" ACTIVE\r\n"mid\\\\dle"\r\n',
+    b'"\\\\"\r\n"q\\"" ACTIVE\r\n',
+    b'"ACTIVE"\r\n"inactive"\r\n"x ACTIVE y"\r\n',
+    b'"ACTIVE" ACTIVE\r\n"z"\r\n',
+    b'"n"   ACTIVE\r\n',
+    b'"caf\xc3\xa9"\r\n"\xe2\x80\xa8x" ACTIVE\r\n',
+    b'dom\\user\r\n"q"\r\n',
+    b'a\\\\b\r\nclever"script\r\n',
+    b'ACTIVE\r\nplain name\r\n"r" ACTIVE\r\n',
+    b'"a b"\r\n"{3}"\r\n"OK"\r\n',
+]
 
-    # ---- D1 -----------------------------------------------------------------------
-    ctx.rule("D1", "reply content never flows into the size/status recognisers")
-    nfun = 0
-    for name, f in R.methods.items():
-        tv = tainted_vars(R, f)
-        if not tv:
+
+def reference_listing(listing):
+    """What a LISTSCRIPTS payload means (RFC 5804 2.7): one name per line; a quoted string is unescaped (backslash + octet -> octet)
+    and is the active script iff ACTIVE (any case) follows it; a line that is not a quoted string is a literal's payload: the name as is."""
+    import re
+    active, names = None, []
+    for line in listing.splitlines():
+        m = re.match(rb'"((?:[^"\\]|\\[\s\S])*)"[ \t]*(.*)\Z', line, re.S)
+        if m is None:
+            names.append(line.decode("utf-8"))
             continue
-        nfun += 1
-        hit = False
-        for c in walk_no_nested(f.node):
-            if isinstance(c, ast.Call) and isinstance(c.func, ast.Attribute) and c.func.attr in ("match", "search", "fullmatch", "findall", "split", "sub"):
-                pr = R.pattern_of(c.func.value, f)
-                if not pr or proto.get(pr[0]) not in ("size", "status"):
-                    continue
-                if any(isinstance(n, ast.Name) and n.id in tv for a_ in c.args for n in ast.walk(a_)):
-                    hit = True
-                    ctx.violation("D1", f, "data-as-protocol:%s" % proto[pr[0]], "reply data (%s) is matched against the %s recogniser: stored "
-                                  "data that looks like protocol is dropped or misread" % (norm(c.args[0]), proto[pr[0]]), node=c,
-                                  witness="a script whose first line is `{5}` / a script named `{7}`")
-        if not hit:
-            ctx.holds("D1", "%s: content variables %s never reach a protocol recogniser" % (f.qualname, sorted(tv)))
-    ctx.need("D1", "functions receiving reply content", nfun, 3)
+        name = re.sub(rb"\\([\s\S])", rb"\1", m.group(1)).decode("utf-8")
+        if re.match(rb"ACTIVE", m.group(2), re.I):
+            active = name
+        else:
+            names.append(name)
+    return active, names
 
+
+def listing_eval(ctx, R, lst):
+    """D2/D5 by evaluation: listscripts interpreted (finite-domain interpreter, stdlib regex engine on the code's constant patterns) over
+    sample payloads; its (active, names) must equal the reference reading.  -> True when decisive (all samples followed)."""
+    from sa import fd
+    from sa.util import module_resolver
+    import re
+    send = R.sender
+    env0 = {}
+    for a, (pat, flags, _n) in R.regex_attrs.items():
+        if isinstance(pat, (bytes, str)) and not a.startswith("<re:"):
+            try:
+                cp = re.compile(pat, flags)
+            except re.error:
+                continue
+            short = a[len("_" + R.cls.name):] if a.startswith("_" + R.cls.name + "__") else a
+            for nm in {a, short}:
+                env0["self." + nm] = fd.Const(cp)
+    helpers = {}
+    for fn, f in R.module.funcs.items():
+        helpers[fn] = f
+    decided = 0
+    first_bad = None
+    for sample in LISTING_SAMPLES:
+        def oracle(interp, e, name, recv, a, kw, st, sample=sample):
+            if name == "self." + send.name or (name and name.startswith("self.") and mangle(R.cls.name, name[5:]) == mangle(R.cls.name, send.name)):
+                return [(fd.Tup([fd.Const("OK"), fd.Const(""), fd.Const(sample)]), None)]
+            if name and name.startswith("self.") and ("print" in name or "debug" in name.lower()):
+                return [(fd.Const(None), None)]
+            if name and name.startswith("self.") and name[5:] in R.methods and R.methods[name[5:]] is not lst:
+                return fd.Inline(R.methods[name[5:]])
+            if name in helpers and isinstance(e.func, ast.Name):
+                return fd.Inline(helpers[name])
+            return None
+        it = fd.Interp(lst.node, R.cls.name, oracle, resolve=module_resolver(ctx.program, R.module), loop_unroll=40, max_paths=400)
+        try:
+            paths = it.run(dict(env0))
+        except fd.TooManyPaths:
+            return False
+        except RecursionError:
+            return False
+        if len(paths) != 1:
+            return False
+        p = paths[0]
+        want = reference_listing(sample)
+        if p.kind == "raise":
+            got = "raises %s" % p.value
+        else:
+            got = concrete(p.value)
+            if got is None:
+                return False
+            got = (got[0], list(got[1])) if isinstance(got, (tuple, list)) and len(got) == 2 and isinstance(got[1], (list, tuple)) else got
+        decided += 1
+        if got != want and first_bad is None:
+            first_bad = (sample, got, want, p)
+    if first_bad is None:
+        ctx.holds("D2", "%s: %d sample listings (escaped quotes and backslashes, names ending in a backslash, literal payload lines, names "
+                  "containing ACTIVE, non-ASCII) decode to the reference names" % (lst.qualname, decided))
+        ctx.holds("D5", "%s: the active script of %d sample listings is the one whose quoted name is followed by ACTIVE" % (lst.qualname, decided))
+        return True
+    sample, got, want, p = first_bad
+    rule = "D5" if isinstance(got, tuple) and isinstance(want, tuple) and got[0] != want[0] and sorted(filter(None, [got[0]] + got[1])) == sorted(
+        filter(None, [want[0]] + want[1])) else "D2"
+    ctx.violation(rule, lst, "model:listing", "the listing %r is decoded as %r; it says %r" % (sample, got, want), node=p.node or lst.node,
+                  witness="LISTSCRIPTS answered with %r" % sample)
+    return True
+
+
+def concrete(v):
+    from sa import fd
+    if isinstance(v, fd.Const):
+        return v.v
+    if isinstance(v, fd.Tup):
+        items = [concrete(x) for x in v.items]
+        return None if any(x is None and not (isinstance(y, fd.Const) and y.v is None) for x, y in zip(items, v.items)) else tuple(items)
+    return None
+
+
+def _d2_d5_syntactic(ctx, R, lst, proto, evaluated):
     # ---- D2 -----------------------------------------------------------------------
     ctx.rule("D2", "quoted-name pattern accepts RFC 5804 quoted strings, name group free of unescaped quotes, result unescaped")
     tv = tainted_vars(R, lst)
@@ -198,6 +273,8 @@ def decoder_rules(ctx, R, skip_d3=False):
                     if (b'\\"', b'"') in chain and (b"\\\\", b"\\") in chain:
                         unesc = True
                 p = getattr(p, "_parent", None)
+    if evaluated:
+        return  # unescaping, raw names and the ACTIVE lookup are decided by evaluation (listing_eval)
     if uses == 0:
         raise AnalysisError("D2", "use of the name group not found")
     if unesc:
@@ -249,6 +326,59 @@ def decoder_rules(ctx, R, skip_d3=False):
                                   % (norm(a0) if a0 is not None else "?", c.func.attr), node=c,
                                   witness='a script named "ACTIVE" or "inactive" is reported as the active one')
     ctx.need("D5", "uses of the ACTIVE pattern", nact, 1)
+
+
+
+def decoder_rules(ctx, R, skip_d3=False):
+    lst = R.methods.get("listscripts")
+    get = R.methods.get("getscript")
+    if lst is None or get is None:
+        raise AnalysisError("D", "listscripts/getscript not found")
+    proto = {}
+    for a, (pat, flags, node) in R.regex_attrs.items():
+        if isinstance(pat, bytes):
+            if pat.startswith(rb"\{"):
+                proto[a] = "size"
+            elif b"OK" in pat:
+                proto[a] = "status"
+            elif b"ACTIVE" in pat.upper():
+                proto[a] = "active"
+    if "size" not in proto.values() or "status" not in proto.values():
+        raise AnalysisError("D1", "protocol recognisers not identified")
+
+    # ---- D1 -----------------------------------------------------------------------
+    ctx.rule("D1", "reply content never flows into the size/status recognisers")
+    nfun = 0
+    for name, f in R.methods.items():
+        tv = tainted_vars(R, f)
+        if not tv:
+            continue
+        nfun += 1
+        hit = False
+        for c in walk_no_nested(f.node):
+            if isinstance(c, ast.Call) and isinstance(c.func, ast.Attribute) and c.func.attr in ("match", "search", "fullmatch", "findall", "split", "sub"):
+                pr = R.pattern_of(c.func.value, f)
+                if not pr or proto.get(pr[0]) not in ("size", "status"):
+                    continue
+                if any(isinstance(n, ast.Name) and n.id in tv for a_ in c.args for n in ast.walk(a_)):
+                    hit = True
+                    ctx.violation("D1", f, "data-as-protocol:%s" % proto[pr[0]], "reply data (%s) is matched against the %s recogniser: stored "
+                                  "data that looks like protocol is dropped or misread" % (norm(c.args[0]), proto[pr[0]]), node=c,
+                                  witness="a script whose first line is `{5}` / a script named `{7}`")
+        if not hit:
+            ctx.holds("D1", "%s: content variables %s never reach a protocol recogniser" % (f.qualname, sorted(tv)))
+    ctx.need("D1", "functions receiving reply content", nfun, 3)
+
+    # ---- D2 / D5 -------------------------------------------------------------------
+    ctx.rule("D2", "quoted-name pattern accepts RFC 5804 quoted strings, name group free of unescaped quotes, result unescaped")
+    ctx.rule("D5", "ACTIVE marker recognised only in the group after the name, anchored")
+    evaluated = listing_eval(ctx, R, lst)
+    try:
+        _d2_d5_syntactic(ctx, R, lst, proto, evaluated)
+    except AnalysisError as e:
+        if not evaluated:
+            raise
+        ctx.notice("D2", "no per-line name pattern to compare with the quoted-string language (%s); the decoder is decided by evaluation" % e.why)
 
     # ---- D3 -----------------------------------------------------------------------
     ctx.rule("D3", "the assembler keeps literal payload apart from line text")
